@@ -315,6 +315,19 @@ func (p *Policy) sanitize(r io.Reader, w io.Writer) error {
 				}
 			}
 
+			// This element stays. If an enclosing element of the same name was
+			// removed for lack of attributes, the next end tag of that name
+			// belongs to this one, not to the removed one: remember that on the
+			// same stack with a marked entry ('/' cannot occur in a tag name).
+			if skipClosingTag && !isVoidElement(token.Data) {
+				for _, name := range closingTagToSkipStack {
+					if name == token.Data {
+						closingTagToSkipStack = append(closingTagToSkipStack, "/"+token.Data)
+						break
+					}
+				}
+			}
+
 			if !skipElementContent {
 				if _, err := buff.WriteString(token.String()); err != nil {
 					return err
@@ -339,7 +352,12 @@ func (p *Policy) sanitize(r io.Reader, w io.Writer) error {
 				}
 			}
 
-			if skipClosingTag && closingTagToSkipStack[len(closingTagToSkipStack)-1] == token.Data {
+			// The end tag of a kept element nested in a removed element of the
+			// same name (see the start tag case): it is handled like any other
+			// end tag, the removed element's own end tag is still to come.
+			if skipClosingTag && closingTagToSkipStack[len(closingTagToSkipStack)-1] == "/"+token.Data {
+				closingTagToSkipStack = closingTagToSkipStack[:len(closingTagToSkipStack)-1]
+			} else if skipClosingTag && closingTagToSkipStack[len(closingTagToSkipStack)-1] == token.Data {
 				closingTagToSkipStack = closingTagToSkipStack[:len(closingTagToSkipStack)-1]
 				if len(closingTagToSkipStack) == 0 {
 					skipClosingTag = false
